@@ -301,6 +301,7 @@ struct St {
     layout_mismatch: u64,
     layout_example: Option<J>,
     mean_not_bit_exact: u64,
+    reagg_undetermined: u64,
     multisets: u64,
     sample: Vec<J>,
 }
@@ -320,6 +321,7 @@ impl St {
             acc.layout_example = self.layout_example;
         }
         acc.mean_not_bit_exact += self.mean_not_bit_exact;
+        acc.reagg_undetermined += self.reagg_undetermined;
         acc.multisets += self.multisets;
         if acc.sample.len() < 3 {
             acc.sample.extend(self.sample.into_iter().take(1));
@@ -512,7 +514,7 @@ fn alphabet(tab: &[Bucket]) -> Vec<f64> {
         s(l.lo),
         s((l.lo + l.hi) / 2),
         s(l.hi),
-        (s(l.hi) + DOMAIN_END) / 2.0,
+        s(l.hi - 1),
     ];
     a.sort_by(|x, y| x.total_cmp(y));
     a.dedup_by(|x, y| x.to_bits() == y.to_bits());
@@ -645,8 +647,20 @@ fn sm_multiset(st: &mut St, inputs: &[(f64, u64)], obs: &mut Vec<Observation>, o
             r["expected"] = outs_json(&want_outs);
             st.v.add(key, "sort-and-merge does not report exactly the recorded values, ascending, equal values merged", r);
         }
+        // The (total, occurrences) form of the output cannot carry every (value, count) pair: for
+        // counts that are not powers of two fl(fl(v * n) / n) may differ from v in the last bit
+        // (0.1 x3 -> total 0.30000000000000004 -> mean 0.10000000000000002). Re-aggregation records
+        // that mean, so the statement does not determine the outcome there; only conservation of
+        // the count is judged in such cases, the full identity in all others.
         st.evals += 1;
-        if !same(&s, &s2) {
+        let lossless = want.iter().all(|(v, c)| (v * *c as f64) / *c as f64 == *v);
+        let identity = if lossless {
+            same(&s, &s2)
+        } else {
+            st.reagg_undetermined += 1;
+            s.iter().map(|o| o.occ as u128).sum::<u128>() == s2.iter().map(|o| o.occ as u128).sum::<u128>()
+        };
+        if !identity {
             let mut r = multiset_json(inputs, repeat_adds);
             r["closed"] = outs_json(&s);
             r["reaggregated"] = outs_json(&s2);
@@ -815,13 +829,14 @@ fn drain_orders<S: Strat>(st: &mut St, orders: &[Vec<Op>], adds: &[(f64, u64); 4
             let ok = if S::EXACT {
                 let mut w: Vec<(f64, u64)> = ins.clone();
                 w.sort_by(|a, b| a.0.total_cmp(&b.0));
-                let mut m: Vec<Out> = Vec::new();
+                let mut m: Vec<(f64, u64)> = Vec::new();
                 for (v, c) in w {
                     match m.last_mut() {
-                        Some(l) if l.total / l.occ as f64 == v => *l = Out { total: v * (l.occ + c) as f64, occ: l.occ + c },
-                        _ => m.push(Out { total: v * c as f64, occ: c }),
+                        Some(l) if l.0 == v => l.1 += c,
+                        _ => m.push((v, c)),
                     }
                 }
+                let m: Vec<Out> = m.into_iter().map(|(v, c)| Out { total: v * c as f64, occ: c }).collect();
                 same(outs, &m)
             } else {
                 let origs: Vec<(Orig, u64)> = ins.iter().map(|(v, c)| (orig_f64(*v), *c)).collect();
@@ -984,15 +999,13 @@ fn main() {
     let sm_s = t2.elapsed().as_secs_f64();
     let (e2_multisets, sm_multisets, sm_big_cases) = (e2.multisets, sm.multisets, sm_big.multisets);
     let e2_evals = e2.evals + sm.evals + sm_big.evals;
-    let mean_drift = sm.mean_not_bit_exact + sm_big.mean_not_bit_exact;
+    let mut e2_acc = St::default();
     for s in [e2, sm, sm_big] {
-        let mut tmp = St::default();
-        std::mem::swap(&mut tmp.sample, &mut acc.sample);
-        let mut acc2 = St { sample: tmp.sample, ..St::default() };
-        s.merge_into(&mut rep, &mut acc2);
-        acc.sample = acc2.sample;
-        acc.evals += acc2.evals;
+        s.merge_into(&mut rep, &mut e2_acc);
     }
+    acc.evals += e2_acc.evals;
+    acc.sample.extend(std::mem::take(&mut e2_acc.sample));
+    let (mean_drift, reagg_joined) = (e2_acc.mean_not_bit_exact, e2_acc.reagg_undetermined);
 
     // ---- NaN is outside the statement ("finite, non-negative"): behaviour recorded, never judged
     let nan_cases: [&[f64]; 3] = [&[f64::NAN], &[1.0, f64::NAN, 0.5], &[f64::NAN, f64::NAN, 2.0, 2.0]];
@@ -1087,6 +1100,7 @@ fn main() {
     rep.set("nan_cases_outside_statement_not_judged", nan_seen.len() as u64);
     rep.set("nan_behaviour_observed", json!(nan_seen));
     rep.set("sort_and_merge_groups_whose_mean_total_div_count_is_not_bit_exact", mean_drift);
+    rep.set("sort_and_merge_reaggregations_with_lossy_total_count_form_only_count_judged", reagg_joined);
     rep.set("phase_wall_s", json!({"e3": e3_s, "e2_exponential": e2_s, "e2_sort_and_merge": sm_s, "concurrency": conc_s}));
     for s in std::mem::take(&mut acc.sample) {
         rep.sample(s);
@@ -1095,7 +1109,7 @@ fn main() {
     rep.assume("SharedHistogram's only shared state is inside histogram::AtomicHistogram (external crate, trusted linearizable); metrique adds no shared step of its own, so every schedule of concurrent add_value calls equals one of the enumerated serial orders; the inside of histogram::AtomicHistogram is not explored");
     rep.assume("the value -> bucket map is monotone between two consecutive probes (it is checked to be monotone and constant per bucket at all probes, one ulp around every edge included)");
     rep.assume("a Repeated observation (total, n) stands for n observations of total/n; its original is compared in f64 with relative slack 1e-12, all single observations in exact integer arithmetic");
-    rep.assume("sort-and-merge expected output is Repeated { total: value * count (one f64 multiplication), occurrences: count }; total/count may differ from value in the last bit for counts that are not powers of two (counted, not judged)");
+    rep.assume("sort-and-merge expected output is Repeated { total: value * count (one f64 multiplication), occurrences: count }; total/count may differ from value in the last bit for counts that are not powers of two (counted); re-aggregation records total/count, so for such lossy groups only count conservation is judged, the bit-exact identity in all other cases");
     rep.assume("sort-and-merge with occurrence counts 10^6 only in a few cases and never 2^32: the strategy stores every occurrence");
     rep.assume("values >= 2^43, negative, infinite and NaN are outside the statement and not judged");
     if !layout_ok && rep.violations.is_empty() {
